@@ -311,4 +311,51 @@ def run(F, rep):
     import recursion as _recw
     _recw.rule_walkers(F, rep, 'C05.W1', ['analyseComponent', 'analyseComponentVariables'], 2, 'analysing the equations and variables of every component')
 
+    # ------------------------------------------------------------------ M: type transitions of the internal variables
+    rep.rule('C05.M1', 'transition functions of AnalyserInternalVariable::mType read from makeVoi/makeState (abstract execution over the enum): each is idempotent (a variable can occur under several <diff>/<bvar>), '
+                       'and makeState yields STATE only from INITIALISED or STATE - a differentiated variable without an initial value must stay SHOULD_BE_STATE so that the model is reported as underconstrained')
+    import enumexec
+    FQ, EQ = 'libcellml::AnalyserInternalVariable::mType', 'libcellml::AnalyserInternalVariable::Type'
+    for nm in ('makeVoi', 'makeState'):
+        fs = [g for g in F.funcs.values() if g.name == nm and g.cls == 'libcellml::AnalyserInternalVariable']
+        if len(fs) != 1:
+            raise AnalysisBroken('AnalyserInternalVariable::%s vanished' % nm)
+        try:
+            T = enumexec.transition(F, fs[0], FQ, EQ)
+        except enumexec.Unknown as e:
+            raise AnalysisBroken('AnalyserInternalVariable::%s: %s is outside the fragment the abstract execution understands' % (nm, e))
+        bad = sorted(x for x in T if T[T[x]] != T[x])
+        rep.check(not bad, 'C05.M1', '%s|idempotent' % nm, fs[0].where(), '%s applied twice differs from applied once for %s (%s): a variable that occurs in two derivatives ends in another type than one that occurs in a single derivative'
+                  % (nm, bad, ', '.join('%s -> %s -> %s' % (x, T[x], T[T[x]]) for x in bad)), 'T(T(x)) = T(x) for all %d types' % len(T))
+        if nm == 'makeState':
+            src_ = sorted(x for x in T if T[x] == 'STATE')
+            rep.check(set(src_) <= {'INITIALISED', 'STATE'} and T.get('INITIALISED') == 'STATE' and T.get('UNKNOWN') == 'SHOULD_BE_STATE', 'C05.M1', 'makeState|state-needs-initial-value', fs[0].where(),
+                      'makeState turns %s into STATE and UNKNOWN into %s: only an initialised variable may become a state, an uninitialised one must become SHOULD_BE_STATE (reported later as underconstrained)' % (src_, T.get('UNKNOWN')),
+                      'INITIALISED -> STATE, UNKNOWN -> SHOULD_BE_STATE, nothing else becomes a state')
+
+    # ------------------------------------------------------------------ O: an overconstrained equation blames all its variables
+    rep.rule('C05.O1', 'where AnalyserInternalEquation::check finds that an equation has nothing left to compute (overconstrained), it marks EVERY variable of the equation OVERCONSTRAINED: the marking in the loop over mAllVariables depends on nothing but the loop '
+                       '(if some kinds are spared and the equation only reads those - a second ODE for a state - nothing is marked, the redundant equation is dropped later and the model is reported valid)')
+    ck = [g for g in F.funcs.values() if g.name == 'check' and g.cls == 'libcellml::AnalyserInternalEquation']
+    if len(ck) != 1:
+        raise AnalysisBroken('AnalyserInternalEquation::check vanished')
+    ck = ck[0]
+    from engines import enclosing_conditions as _encl
+    marks = [a for a in ck.walk() if a.get('k') == 'Bin' and a.get('op') == '=' and a['c'][0].get('k') == 'Member' and a['c'][0].get('q') == 'libcellml::AnalyserInternalVariable::mType'
+             and a['c'][1].get('k') == 'Ref' and a['c'][1].get('n') == 'OVERCONSTRAINED']
+    n_o = 0
+    for a in marks:
+        loops = [l for l in ck.ancestors(a) if l.get('k') == 'RangeFor' and render(role(l, 'range')).endswith('mAllVariables')]
+        if not loops:
+            continue
+        n_o += 1
+        inner = [render(cnd)[:60] for cnd, br, st in _encl(ck, a) if any(x is loops[0] for x in ck.ancestors(st))]
+        rep.check(not inner, 'C05.O1', 'check|mark-all-variables', ck.where(a), 'the marking of the variables of an overconstrained equation is conditional (`%s`): an equation whose variables are all spared marks nothing and the redundancy goes unreported' % '`, `'.join(inner), 'unconditional inside the loop over mAllVariables')
+    if n_o < 1:
+        raise AnalysisBroken('AnalyserInternalEquation::check: the loop that marks the variables of an overconstrained equation vanished')
+
+    # ------------------------------------------------------------------ loop-carried locals
+    from engines import rule_loop_state
+    rule_loop_state(F, rep, 'C05.S1', lambda g: g.file.endswith('/analyser.cpp'), 'analyser.cpp')
+
 
